@@ -401,7 +401,7 @@ def gen_plan(seed: int, tier: str) -> dict:
         "auto_escape": rng.random() < 0.3,
         "undefined": rng.choice([None, None, "strict", "strict", "falsy"]),
         "trim": rng.choice([None, None, None, "-", "~"]),
-        "suppress_blank_control_flow_blocks": rng.choice([None, None, False]),
+        "suppress_blank_control_flow_blocks": rng.choice([None, False]),
         "shorthand_indexes": rng.choice([None, None, True]),
         "loop_iteration_limit": rng.choice([None, None, None, 5, 8, 40]),
         "output_stream_limit": rng.choice([None, None, None, None, 60, 400]),
